@@ -484,9 +484,12 @@ func (e *Executor) LoadDependencyOutputs(
 			0,
 			update,
 		)
+		// A no-cache dependency cannot be restored from the cache, but when it already ran in
+		// this build its outputs are in the workspace and it must not be executed again.
+		producedInThisBuild := localDep.OutputsLoaded
 		loadErr := e.registry.LoadOutputs(ctx, localDep, targetResult, progress)
 
-		if loadErr != nil || localDep.SkipsCache() {
+		if loadErr != nil || (localDep.SkipsCache() && !producedInThisBuild) {
 			logger.Debugf(
 				"%s: failed to load output for dependency %s (re-rerunning): err=%v no-cache=%t",
 				target.Label,
